@@ -267,8 +267,10 @@ func runC03Share(_ *testing.T, c c03ShareCase) kit.Outcome {
 			case "acquire":
 				s.p.Acquire()
 				got := s.reg.take()
-				if len(got) != 1 || got[0].ID != core.MetricInFlight || got[0].Value != float64(busy) {
-					return kit.Viol(s.name+":partition-inflight-sample", "op %d: Acquire on the partition object (busy now %d) emitted %+v, want one %s sample = %d", i, busy, got, core.MetricInFlight, busy)
+				// where the bin's in-flight sample is emitted (here or by the strategy) is not promised; one that is
+				// emitted here must be the bin's count after this grant, once
+				if len(got) > 1 || (len(got) == 1 && (got[0].ID != core.MetricInFlight || got[0].Value != float64(busy))) {
+					return kit.Viol(s.name+":partition-inflight-sample", "op %d: Acquire on the partition object (busy now %d) emitted %+v, want at most one %s sample = %d", i, busy, got, core.MetricInFlight, busy)
 				}
 			case "release":
 				s.p.Release()
@@ -296,7 +298,7 @@ func TestC03_partition_share(t *testing.T) {
 	kit.RequireMode(t, "std")
 	kit.Check(t, kit.Prop[c03ShareCase]{
 		ID: "C03", Quick: 4000, Thor: 600_000,
-		Rule: "the exported partition objects used directly (UpdateLimit with totals up to 2^31-1 and decimal / dyadic / float-noise fractions, Acquire, Release): Limit() == max(1, ceil(float64(total)*fraction)), BusyCount() == outstanding, IsLimitExceeded() == (busy >= share), one in-flight sample == busy per Acquire, limit gauge == Limit(); non-trivial = a non-integer product with a share above 1, two updates, tokens outstanding at the end",
+		Rule: "the exported partition objects used directly (UpdateLimit with totals up to 2^31-1 and decimal / dyadic / float-noise fractions, Acquire, Release): Limit() == max(1, ceil(float64(total)*fraction)), BusyCount() == outstanding, IsLimitExceeded() == (busy >= share), an in-flight sample emitted by Acquire == busy, limit gauge == Limit(); non-trivial = a non-integer product with a share above 1, two updates, tokens outstanding at the end",
 		Gen:  genC03Share, Run: runC03Share,
 	})
 }
@@ -422,11 +424,10 @@ func runC02Tok(_ *testing.T, c c02TokCase) kit.Outcome {
 		case 2:
 			tok.Release()
 			rel++
-			want := 0
-			if c.Acquired {
-				want = rel // the strategies' release closures give back one unit per call; the token adds no state of its own
-			}
-			if released != want {
+			// an acquired token gives its unit back with the first Release; whether further calls repeat the release
+			// function (as today) or are swallowed (an idempotent token) is not promised - but never more often than
+			// Release was called, and never for a refused token
+			if (c.Acquired && (released < 1 || released > rel)) || (!c.Acquired && released != 0) {
 				return kit.Viol("token:release", "op %d: after %d Release() calls the release function ran %d times (acquired=%v)", i, rel, released, c.Acquired)
 			}
 		case 3:
@@ -442,7 +443,7 @@ func TestC02_tokens(t *testing.T) {
 	kit.RequireMode(t, "std")
 	kit.Check(t, kit.Prop[c02TokCase]{
 		ID: "C02", Quick: 1500, Thor: 100_000,
-		Rule: "core.NewAcquiredStrategyToken / NewNotAcquiredStrategyToken: accessors report what the token was built with, Release runs the release function once per call on an acquired token and nothing on a refused one; non-trivial = a Release",
+		Rule: "core.NewAcquiredStrategyToken / NewNotAcquiredStrategyToken: accessors report what the token was built with, the first Release of an acquired token runs the release function (never more often than Release was called), a refused token releases nothing; non-trivial = a Release",
 		Gen:  genC02Tok, Run: runC02Tok,
 	})
 }
